@@ -305,7 +305,78 @@ func (e *Engine) pkgOfKey(key string, a *Act) *types.Package {
 	return nil
 }
 
-func (e *Engine) heapSortOf(k string) string { return "(Array Int Int)" }
+func (e *Engine) heapSortOf(k string) string {
+	for _, f := range e.g.specFns {
+		for i, h := range f.Heaps {
+			if h == k {
+				return f.HeapSorts[i]
+			}
+		}
+	}
+	return "(Array Int Int)"
+}
+
+// wtPred returns the well-typedness predicate for a field heap of integer element type ("" if none needed).
+func (e *Engine) wtPred(key, sort string) string {
+	// find the Go type of the field to know its range
+	if !strings.HasPrefix(key, "F:") {
+		return ""
+	}
+	rest := key[2:]
+	i := strings.LastIndex(rest, ".")
+	si := e.g.structs[rest[:i]]
+	if si == nil {
+		return ""
+	}
+	for _, f := range si.Fields {
+		if f.Name == rest[i+1:] {
+			fact := e.g.rangeFact(f.T, "(select h a)")
+			if fact == "true" {
+				return ""
+			}
+			n := "wt_" + sanitize(key)
+			e.g.decl("fn "+n, fmt.Sprintf("(declare-fun %s (%s) Bool)", n, sort))
+			e.g.addAxiom("("+n+" ", fmt.Sprintf("(forall ((h %s) (a Int)) (! (=> (%s h) %s) :pattern ((%s h) (select h a))))", sort, n, fact, n))
+			return n
+		}
+	}
+	return ""
+}
+
+// resolveReads turns the "reads pkg.Type.field" clauses of a spec function into heap keys.
+func (e *Engine) resolveReads(f *SpecFn) {
+	if f.resolved {
+		return
+	}
+	f.resolved = true
+	for _, r := range f.Reads {
+		i := strings.LastIndex(r, ".")
+		if i < 0 {
+			e.loadErrs = append(e.loadErrs, "spec "+f.Name+": bad reads clause "+r)
+			continue
+		}
+		t, _ := e.specType(r[:i], f.pkg)
+		if t == nil {
+			e.loadErrs = append(e.loadErrs, "spec "+f.Name+": unknown type in reads clause "+r)
+			continue
+		}
+		si := e.g.structInfoOf(t)
+		found := false
+		if si != nil {
+			for k, fl := range si.Fields {
+				if fl.Name == r[i+1:] {
+					key, srt := e.g.fieldHeapKey(si, k)
+					f.Heaps = append(f.Heaps, key)
+					f.HeapSorts = append(f.HeapSorts, srt)
+					found = true
+				}
+			}
+		}
+		if !found {
+			e.loadErrs = append(e.loadErrs, "spec "+f.Name+": unknown field in reads clause "+r)
+		}
+	}
+}
 
 var effectFreePrefixes = []string{
 	"log/slog.", "fmt.", "runtime/trace.", "context.", "time.", "strings.", "strconv.", "unicode", "math.", "math/bits.",
@@ -331,11 +402,13 @@ func (e *Engine) effectFree(key string) bool {
 // ---- spec functions and axioms ----
 
 func (e *Engine) specFnDecl(f *SpecFn) string {
+	e.resolveReads(f)
 	var ps []string
 	for _, p := range f.Params {
 		_, s := e.specType(p.Type, f.pkg)
 		ps = append(ps, s)
 	}
+	ps = append(ps, f.HeapSorts...)
 	_, rs := e.specType(f.Result, f.pkg)
 	return fmt.Sprintf("(declare-fun spec_%s (%s) %s)", f.Name, strings.Join(ps, " "), rs)
 }
@@ -349,6 +422,21 @@ func (e *Engine) ensureAxioms() {
 	e.axVC = &VC{eng: e, g: e.g, fnName: "axioms", heapSorts: map[string]string{}}
 	e.axAct = &Act{eng: e, vc: e.axVC, regs: map[ssa.Value]Val{}, cells: map[*ssa.Alloc]*Cell{}, counts: map[string]int{}}
 	st := &State{guard: "true", cells: map[*Cell]Val{}, heap: map[string]string{}, top: "0"}
+	// heaps read by spec functions are universally quantified in axioms
+	type hv struct{ name, sort, key string }
+	var hvs []hv
+	for _, k := range sortedKeys(e.g.specFns) {
+		f := e.g.specFns[k]
+		e.resolveReads(f)
+		for i, h := range f.Heaps {
+			if _, ok := st.heap[h]; !ok {
+				n := fmt.Sprintf("axh%d", len(hvs))
+				st.heap[h] = n
+				e.axVC.heapSorts[h] = f.HeapSorts[i]
+				hvs = append(hvs, hv{n, f.HeapSorts[i], h})
+			}
+		}
+	}
 	for _, ax := range e.axioms {
 		env := &SpecEnv{a: e.axAct, vc: e.axVC, eng: e, st: st, vars: map[string]Val{}, pkg: e.pkgByPath[ax.Pkg]}
 		s, err := env.evalBool(ax.Expr)
@@ -356,6 +444,12 @@ func (e *Engine) ensureAxioms() {
 			e.loadErrs = append(e.loadErrs, fmt.Sprintf("%s: axiom error: %v", ax.File, err))
 			continue
 		}
+		s = e.quantifyHeaps(s, func() (n, srt, key []string) {
+			for _, h := range hvs {
+				n, srt, key = append(n, h.name), append(srt, h.sort), append(key, h.key)
+			}
+			return
+		})
 		ax.Text = s
 		ax.Uses = uniq(tokRe.FindAllString(s, -1))
 	}
@@ -367,6 +461,47 @@ func (e *Engine) ensureAxioms() {
 		&Axiom{Name: "strlt-empty", Text: "(forall ((a Str)) (! (=> (strlt a str!empty) false) :pattern ((strlt a str!empty))))", Uses: []string{"strlt"}},
 	)
 	e.g.strLit("")
+}
+
+// quantifyHeaps closes a formula over the heap variables it mentions, under their well-typedness hypotheses.
+func (e *Engine) quantifyHeaps(s string, hv func() (n, srt, key []string)) string {
+	names, sorts, keys := hv()
+	var binds, wts []string
+	for i, n := range names {
+		if regexp.MustCompile(`\b` + n + `\b`).MatchString(s) {
+			binds = append(binds, fmt.Sprintf("(%s %s)", n, sorts[i]))
+			if wt := e.wtPred(keys[i], sorts[i]); wt != "" {
+				wts = append(wts, app(wt, n))
+			}
+		}
+	}
+	if len(binds) == 0 {
+		return s
+	}
+	if strings.HasPrefix(s, "(forall (") {
+		// merge into the leading quantifier: (forall (binds vars) (=> wts body))
+		j := matchParenAt(s, len("(forall "))
+		vars := s[len("(forall (") : j]
+		body := strings.TrimSpace(s[j+1 : len(s)-1])
+		return "(forall (" + strings.Join(binds, " ") + " " + vars + ") " + implies(and(wts...), body) + ")"
+	}
+	return "(forall (" + strings.Join(binds, " ") + ") " + implies(and(wts...), s) + ")"
+}
+
+func matchParenAt(s string, i int) int {
+	d := 0
+	for j := i; j < len(s); j++ {
+		switch s[j] {
+		case '(':
+			d++
+		case ')':
+			d--
+			if d == 0 {
+				return j
+			}
+		}
+	}
+	return -1
 }
 
 func uniq(xs []string) []string {
@@ -382,7 +517,9 @@ func uniq(xs []string) []string {
 }
 
 // axiomsFor returns the axioms relevant to a script body (transitively).
-func (e *Engine) axiomsFor(body string) []string {
+func (e *Engine) axiomsFor(body string) []string { return e.axiomsForExcept(body, nil) }
+
+func (e *Engine) axiomsForExcept(body string, without []string) []string {
 	e.ensureAxioms()
 	have := map[string]bool{}
 	for _, t := range tokRe.FindAllString(body, -1) {
@@ -394,6 +531,15 @@ func (e *Engine) axiomsFor(body string) []string {
 		changed = false
 		for i, ax := range e.axioms {
 			if used[i] || ax.Text == "" {
+				continue
+			}
+			skip := false
+			for _, w := range without {
+				if ax.Name == w {
+					skip = true
+				}
+			}
+			if skip {
 				continue
 			}
 			hit := false
@@ -564,7 +710,7 @@ func (a *Act) paramFacts(st *State, v Val, nonNil bool) {
 // verifyLemma produces the VC of a lemma (goal over spec functions).
 func (e *Engine) verifyLemma(l *Lemma) *VC {
 	e.ensureAxioms()
-	vc := &VC{eng: e, g: e.g, fnName: "lemma " + l.Name, heapSorts: map[string]string{}}
+	vc := &VC{eng: e, g: e.g, fnName: "lemma " + l.Name, heapSorts: map[string]string{}, without: l.Without}
 	a := &Act{eng: e, vc: vc, regs: map[ssa.Value]Val{}, cells: map[*ssa.Alloc]*Cell{}, counts: map[string]int{}}
 	st := &State{guard: "true", cells: map[*Cell]Val{}, heap: map[string]string{}, top: "0"}
 	env := &SpecEnv{a: a, vc: vc, eng: e, st: st, vars: map[string]Val{}, pkg: e.pkgByPath[l.Pkg]}
